@@ -83,14 +83,17 @@ Definition spec_ok (c : cfg) (script : list ev) (o : sm_obs) : bool :=
     | NoExpiry => Nat.eqb (o_kills o) 0
     end.
 
-(** timeout source: per-call value if given, else the configured one *)
-Definition timeout_ok (kwarg config got : option nat) : bool :=
-  match kwarg, got with
-  | Some v, Some g => Nat.eqb v g
-  | Some _, None => false
-  | None, _ => match config, got with
-               | Some v, Some g => Nat.eqb v g
-               | None, None => true
-               | _, _ => false
-               end
+(** timeout source: the per-call value if given (an explicit None included: it
+    switches a configured timeout off), else the configured one *)
+Definition opt_nat_same (a b : option nat) : bool :=
+  match a, b with
+  | Some x, Some y => Nat.eqb x y
+  | None, None => true
+  | _, _ => false
+  end.
+
+Definition timeout_ok (kwarg : option (option nat)) (config got : option nat) : bool :=
+  match kwarg with
+  | Some v => opt_nat_same v got
+  | None => opt_nat_same config got
   end.
